@@ -107,6 +107,8 @@ class Corr:
                     raise ValueError("Smearing matrices are not NxN.")
                 if (not all([item.shape == noNull[0].shape for item in noNull])):
                     raise ValueError("Items in data_input are not of identical shape." + str(noNull))
+                if self.N == 1:
+                    self.content = [item.reshape(1) if item is not None else None for item in self.content]
             else:
                 raise TypeError("'data_input' contains item of wrong type.")
         else:
